@@ -147,6 +147,7 @@ func vpRank(b []byte) uint64 {
 }
 func vpJoin()  {}
 func vpYield() {}
+func vpSettle() {}
 func vpSameBacking(a, b []byte) bool {
 	if cap(a) == 0 || cap(b) == 0 {
 		return false
